@@ -71,6 +71,9 @@ Fixpoint py_pack_le (n : nat) (v : N) : bytes :=
   | S n' => N.modulo v 256 :: py_pack_le n' (N.div v 256)
   end.
 
+(** big-endian fields ('>H', '>I', ...) *)
+Definition py_pack_be (n : nat) (v : N) : bytes := rev (py_pack_le n v).
+
 (** [unpack(fmt, b)[0]] for the same formats.  Domain: [len(b)] = size of the format
     and every element < 256. *)
 Fixpoint py_unpack_le (l : bytes) : N :=
@@ -78,6 +81,17 @@ Fixpoint py_unpack_le (l : bytes) : N :=
   | [] => 0%N
   | x :: r => (x + 256 * py_unpack_le r)%N
   end.
+
+Definition py_unpack_be (l : bytes) : N := py_unpack_le (rev l).
+
+(** [for i in range(n): acc += f(i)] on bytes / lists is [acc ++ py_concat (py_range_map f n)] *)
+Definition py_concat {A} (l : list (list A)) : list A := concat l.
+
+(** [x[:-m]] and [x[-m:]] for an int [m >= 0] ([x[:-0]] is empty, [x[-0:]] is [x]) *)
+Definition py_slice_to_neg {A} (m : nat) (l : list A) : list A :=
+  match m with O => [] | _ => firstn (length l - m) l end.
+Definition py_slice_from_neg {A} (m : nat) (l : list A) : list A :=
+  match m with O => l | _ => skipn (length l - m) l end.
 
 (** ** Boolean equality used by the differential validation of the translator *)
 
@@ -252,6 +266,15 @@ Proof.
   - rewrite IH by lia. rewrite N.div_div by lia.
     rewrite Nat2N.inj_succ, N.pow_succ_r'. reflexivity.
 Qed.
+
+Lemma py_pack_be_length n v : length (py_pack_be n v) = n.
+Proof. unfold py_pack_be. rewrite rev_length. apply py_pack_le_length. Qed.
+
+Lemma py_pack_le_S n v : py_pack_le (S n) v = (v mod 256)%N :: py_pack_le n (v / 256)%N.
+Proof. reflexivity. Qed.
+
+Lemma py_pack_be_S n v : py_pack_be (S n) v = py_pack_be n (v / 256)%N ++ [(v mod 256)%N].
+Proof. unfold py_pack_be. cbn [py_pack_le rev]. reflexivity. Qed.
 
 Lemma py_unpack_le_2 l : 2 <= length l -> py_unpack_le (py_slice 0 2 l) = un_le16 l.
 Proof.
